@@ -27,7 +27,7 @@ COMPONENTS = {"real": ["reb_simulation_integrate_raw, reb_check_exit, reb_run_he
               "simulated": ["events between steps (heartbeat seam: user stop at a chosen boundary)", "call partition (re-entry with the previous call's leftovers)", "wall clock"]}
 ASSUMPTIONS = ["(t0, dt, tmax) triples are input draws (not simulation); the event / re-entry dimension is what the seeded schedule explores",
                "splitting clause only for fixed-step integrators in safe mode with exact_finish_time=0 (C09 allows rounding-level differences when a deferred half step is closed early)"]
-PROBES = ["stop_on_shortened_last_step", "late_escape_event", "late_encounter_event", "first_step_is_last", "dt_larger_than_interval", "target_behind", "target_equal", "multi_call", "user_stop_event", "escape_event", "no_particles_event", "adaptive_shrunk_last_step", "backward"]
+PROBES = ["stop_on_shortened_last_step", "late_escape_event", "late_encounter_event", "late_collision_event", "first_step_is_last", "dt_larger_than_interval", "target_behind", "target_equal", "multi_call", "user_stop_event", "escape_event", "no_particles_event", "adaptive_shrunk_last_step", "backward"]
 
 FIXED = ["whfast", "saba", "leapfrog", "janus", "eos", "sei", "none", "mercurius"]
 ADAPTIVE = ["ias15", "bs", "trace"]
@@ -41,6 +41,10 @@ def generate(rng, tier, index):
         cfg.pop(k, None)
     d = rng.derive("drv")
     dt = abs(cfg["dt"])
+    if integ == "ias15" and rng.derive("mindt").chance(0.35):
+        # a floor on the adaptive step that is larger than the remainder of the interval in the last step
+        cfg["opts"] = dict(cfg.get("opts", {}))
+        cfg["opts"]["ri_ias15.min_dt"] = dt * rng.derive("mindt").choice([0.01, 0.3])
     t0 = d.choice([0.0, 0.0, d.uniform(-5, 5), 1e3, 1e8 if integ in FIXED else 10.0])
     sgn = d.choice([1, 1, -1]) if integ != "trace" else 1
     kind = d.weighted([("multiple", 4), ("random", 4), ("short", 2), ("equal", 1), ("ulp", 3)])
@@ -72,7 +76,9 @@ def generate(rng, tier, index):
     lt = rng.derive("late")
     if integ in FIXED and lt.chance(0.2):
         # an exit condition (escape / close encounter) that becomes true for the first time at a LATER step boundary: integrate() has to stop exactly there
-        late = dict(kind=lt.choice(["escape", "encounter"]), horizon=lt.randint(6, 40), exact=lt.choice([0, 1]), pick=lt.randint(0, 1000))
+        # (MERCURIUS searches for collisions inside its encounter sub-steps and in heliocentric coordinates: "the boundary at which a pair first overlaps" is
+        #  not defined by the boundary states alone, so the halting collision is not posed for it)
+        late = dict(kind=lt.choice(["escape", "encounter", "collision"] if integ != "mercurius" else ["escape", "encounter"]), horizon=lt.randint(6, 40), exact=lt.choice([0, 1]), pick=lt.randint(0, 1000))
     return dict(config=cfg, t0=t0, targets=targets, exact=d.choice([0, 1]), events=events, late=late)
 
 
@@ -199,6 +205,14 @@ def execute(case, ctx):
         if stop_abs is not None and sd_b <= stop_abs and sd_a > stop_abs:
             viol("status", "a step was taken after the user stopped the run", "%s: stop requested at steps_done=%d, ended at %d" % (tag, stop_abs, sd_a), key="status:step-after-stop")
             break
+        if not fixed:
+            # time never moves against the direction of integration, whether or not an adaptive run finishes within the step cap
+            for a, b in zip(hb, hb[1:]):
+                if s * (b["t"] - a["t"]) < 0:
+                    viol("time", "time moved against the direction of integration", "%s: %r -> %r" % (tag, a["t"], b["t"]), key="time:monotone")
+                    break
+            if viols:
+                break
         if sd_a >= cap and not stopped and not fixed:
             return dict(viols=viols, sig=None, probes=probes, sim={"steps": int(sd_a - steps_total0), "calls": len(calls)})     # adaptive: inconclusive, not a contract violation
         if sd_a >= cap and not stopped:
@@ -309,15 +323,24 @@ def execute(case, ctx):
         def measure(s_):
             raw = rb.particles_raw(s_)
             n_ = s_.N
-            P = [struct.unpack_from("<3d", raw, i * rb.PART.size) for i in range(n_)]
+            Q = [struct.unpack_from("<6d", raw, i * rb.PART.size) for i in range(n_)]
+            P = [q[:3] for q in Q]
             far = max(math.sqrt(x * x + y * y + z * z) for (x, y, z) in P)
-            near = min([math.sqrt((P[i][0] - P[j][0]) ** 2 + (P[i][1] - P[j][1]) ** 2 + (P[i][2] - P[j][2]) ** 2) for i in range(n_) for j in range(i + 1, n_)] or [float("inf")])
-            return far, near
+            near, appr = float("inf"), False
+            for i in range(n_):
+                for j in range(i + 1, n_):
+                    d_ = math.sqrt((P[i][0] - P[j][0]) ** 2 + (P[i][1] - P[j][1]) ** 2 + (P[i][2] - P[j][2]) ** 2)
+                    if d_ < near:
+                        near = d_
+                        rv_ = sum((Q[i][a] - Q[j][a]) * (Q[i][a + 3] - Q[j][a + 3]) for a in range(3))
+                        vv_ = math.sqrt(sum((Q[i][a + 3] - Q[j][a + 3]) ** 2 for a in range(3))) * d_ + 1e-300
+                        appr = rv_ < -1e-6 * vv_        # the closest pair is clearly approaching (the overlap searches ignore separating pairs)
+            return far, near, appr
         try:
             with rb.quiet():
                 ref = mk()
                 sg = 1.0 if ref.dt > 0 else -1.0
-                hist = [measure(ref) + (ref.t,)]
+                hist = [measure(ref) + (ref.t,)]     # (far, near, closest pair approaching, t)
                 for _k in range(late["horizon"]):
                     ref.steps(1)
                     hist.append(measure(ref) + (ref.t,))
@@ -328,7 +351,7 @@ def execute(case, ctx):
                 prev = [h[col] for h in hist[:k_]]
                 if col == 0 and hist[k_][0] > max(prev) * (1 + 1e-6):
                     cands.append((k_, math.sqrt(max(prev) * hist[k_][0])))
-                if col == 1 and hist[k_][1] < min(prev) * (1 - 1e-6) and hist[k_][1] > 0:
+                if col == 1 and hist[k_][1] < min(prev) * (1 - 1e-6) and hist[k_][1] > 0 and (late["kind"] != "collision" or hist[k_][2]):
                     cands.append((k_, math.sqrt(min(prev) * hist[k_][1])))
             if cands:
                 k_, D = cands[late["pick"] % len(cands)]
@@ -336,17 +359,23 @@ def execute(case, ctx):
                     L_ = mk()
                     if col == 0:
                         L_.exit_max_distance = D
+                    elif late["kind"] == "collision":
+                        # halting collision: every body gets radius D/2, so the pair that first comes closer than D overlaps at exactly that boundary
+                        for q_ in range(L_.N):
+                            L_.particles[q_].r = D / 2
+                        L_.collision = "direct"
+                        L_.collision_resolve = "halt"
                     else:
                         L_.exit_min_distance = D
                     sd0_ = int(L_.steps_done)
                     exc_ = None
                     try:
-                        L_.integrate(hist[-1][2] + sg * 0.3 * dt_user, exact_finish_time=late["exact"])
-                    except (rebound.Escape, rebound.Encounter) as e:
+                        L_.integrate(hist[-1][3] + sg * 0.3 * dt_user, exact_finish_time=late["exact"])
+                    except (rebound.Escape, rebound.Encounter, rebound.Collision) as e:
                         exc_ = type(e).__name__
                     except (rebound.NoParticles, rebound.Collision, rebound.GenericError, RuntimeError) as e:
                         exc_ = "other:" + type(e).__name__
-                want = "Escape" if col == 0 else "Encounter"
+                want = "Escape" if col == 0 else ("Collision" if late["kind"] == "collision" else "Encounter")
                 probe("late_%s_event" % late["kind"])
                 taken = int(L_.steps_done) - sd0_
                 if exc_ != want:
@@ -354,7 +383,7 @@ def execute(case, ctx):
                         integ, late["kind"], D, k_, len(hist) - 1, late["exact"], exc_, taken), key="status:late:%s:missed" % late["kind"])
                 elif taken != k_:
                     viol("status", "exit condition reported at the wrong step boundary", "%s: %s threshold %r first exceeded at boundary %d, reported after %d steps (t %r, expected %r)" % (
-                        integ, late["kind"], D, k_, taken, L_.t, hist[k_][2]), key="status:late:%s:boundary" % late["kind"])
+                        integ, late["kind"], D, k_, taken, L_.t, hist[k_][3]), key="status:late:%s:boundary" % late["kind"])
                 elif fixed and struct.pack("<d", abs(L_.dt)) != struct.pack("<d", dt_user):
                     viol("dt", "user step size not restored", "%s: after %s at boundary %d dt is %r (expected %r)" % (integ, want, k_, L_.dt, dt_user), key="dt:restore:after-exit")
         except (rebound.Escape, rebound.NoParticles, rebound.Encounter, rebound.Collision, rebound.GenericError, RuntimeError):
